@@ -872,6 +872,11 @@ def table_rhs(st):
     return any(isinstance(x, tuple) and x and x[0] == "table" for x in st)
 
 
+def _dot_start(st):
+    import random as _random
+    return re.match(r"[^\W_][\w/-]*\.", R(_random.Random(0), 0.0).s(st)) is not None
+
+
 def model_case(stmts, rng, v, stream):
     # a table literal continues over the following lines as long as they start with `|` (even across a blank line), so a
     # bare table expression directly after a statement that ends with a table would be read as more rows of that table:
@@ -879,6 +884,11 @@ def model_case(stmts, rng, v, stream):
     keep = []
     for st in stmts:
         if keep and table_rhs(keep[-1]) and st[0] == "expr" and table_rhs(st):
+            continue
+        # a line that begins `x.` / `3.` directly followed by a line of dashes is a numbered section title (`A. name = 2` +
+        # underline): the formatter prints the statements without blank lines, so `A.name = 2`, blank line, `--` does not
+        # round-trip (reported as a finding, not listed: the empty comment is not generated in that position)
+        if keep and st == ("com", "") and _dot_start(keep[-1]):
             continue
         keep.append(st)
     stmts = keep
